@@ -84,12 +84,12 @@ func VerifH_C10_rendition() {
 			sc.pl.Map.ByteRangeStart = &mapStart
 		}
 	}
-	auri := "audio.m3u8"
+	auri := "audio/audio.m3u8" // variant and rendition playlists live in different directories below the multivariant playlist
 	acs := "opus"
 	if rateA == 44100 {
 		acs = "mp4a.40.2"
 	}
-	mv := &playlist.Multivariant{Version: 7, Variants: []*playlist.MultivariantVariant{{Bandwidth: 1000, Codecs: []string{"avc1.42c028", acs}, URI: "stream.m3u8", Audio: "aud"}},
+	mv := &playlist.Multivariant{Version: 7, Variants: []*playlist.MultivariantVariant{{Bandwidth: 1000, Codecs: []string{"avc1.42c028", acs}, URI: "video/stream.m3u8", Audio: "aud"}},
 		Renditions: []*playlist.MultivariantRendition{{Type: playlist.MultivariantRenditionTypeAudio, GroupID: "aud", Name: "english", Language: "en", Default: true, URI: &auri}}}
 	mvBlob, plBlob, aplBlob := verifPlaylistBlob(mv), verifPlaylistBlob(sc.pl), verifPlaylistBlob(au.pl)
 	verifResponder = func(req *http.Request) (int, []byte, error) {
@@ -184,6 +184,18 @@ func VerifH_C10_rendition() {
 		verifAssert("C10", "nothing-invented-or-negative", gi == len(got))
 	}
 	for _, rq := range verifReqLog {
+		// every URI is resolved against the URL of the playlist that lists it
+		switch {
+		case containsStr(rq.url, "index.m3u8"):
+		case containsStr(rq.url, "audio.m3u8"):
+			verifAssert("C10", "uris-resolved-against-their-playlist", rq.url == "http://host.example/vod/audio/audio.m3u8")
+		case containsStr(rq.url, "stream.m3u8"):
+			verifAssert("C10", "uris-resolved-against-their-playlist", rq.url == "http://host.example/vod/video/stream.m3u8")
+		case containsStr(rq.url, "/ainit.mp4") || containsStr(rq.url, "/aseg"):
+			verifAssert("C10", "uris-resolved-against-their-playlist", len(rq.url) > 30 && rq.url[:30] == "http://host.example/vod/audio/")
+		default:
+			verifAssert("C10", "uris-resolved-against-their-playlist", len(rq.url) > 30 && rq.url[:30] == "http://host.example/vod/video/")
+		}
 		if containsStr(rq.url, "vinit.mp4") {
 			if mapRange {
 				verifAssert("C10", "init-requested-with-its-byte-range", rq.isSet && rq.rng == "bytes="+strconv.FormatUint(mapStart, 10)+"-"+strconv.FormatUint(mapStart+mapLen-1, 10))
